@@ -86,7 +86,7 @@ func TestRobustness(t *testing.T) {
 	files := corpusFiles(t)
 	var inputs [][]byte
 	for i, p := range files {
-		if i%3 != 0 && !testing.Short() {
+		if i%3 != 0 {
 			// every third corpus file keeps the test under a few seconds; the set still covers all structure kinds
 			continue
 		}
